@@ -1019,6 +1019,7 @@ mod statics {
              ("sub/deep/file.css", b"a{}".to_vec()), ("sub/index.html", b"<p>sub</p>".to_vec()), ("sub/deep/x.tar.gz", vec![1, 2, 3]), ("configure.html", b"<p>c</p>".to_vec()),
              ("caf\u{e9}.txt", b"non-ascii name".to_vec()), ("noindex/readme.md", b"# r".to_vec()), ("sound.oga", vec![b'O', b'g', b'g', b'S']), ("big.bin", (0..70000u32).map(|i| (i % 253) as u8).collect()),
              ("we#ird/index.html", b"<p>hash dir</p>".to_vec()), ("we", b"the file named we".to_vec()), ("dot./x.txt", b"in dot-dir".to_vec()), ("trail..html", b"trailing dot page".to_vec()),
+             ("..notes.txt", b"name starts with two dots".to_vec()), ("report..", b"name ends with two dots".to_vec()), ("sub/..b/c.txt", b"directory name starts with two dots".to_vec()), ("sub/a../c.txt", b"directory name ends with two dots".to_vec()),
              ("edge8191.bin", vec![b'e'; 8191]), ("edge8192.bin", vec![b'f'; 8192]), ("edge8193.bin", vec![b'g'; 8193]), (".hidden", b"h".to_vec()), ("x.HTML", b"upper".to_vec())]
     }
     fn mime(name: &str) -> &'static str {
